@@ -9,7 +9,7 @@ from autobean_refactor.models.internal.surrounding_comments import SurroundingCo
 
 CASES = {'quick': 6000, 'thorough': 80000}
 GATES = {
-    'quick': {'evaluations': 25000, 'comments_vs_table': 9000, 'expected:leading': 2500, 'expected:trailing': 1200, 'expected:standalone': 1500,
+    'quick': {'evaluations': 25000, 'comments_vs_table': 8000, 'expected:leading': 2500, 'expected:trailing': 1200, 'expected:standalone': 1500,
               'layout:indented-comment': 2000, 'layout:blank-separated': 500, 'layout:mixed-class-adjacent': 300, 'layout:file-start': 500,
               'layout:file-end': 300, 'layout:after-last-meta-no-postings': 40, 'layout:before-dedent': 300, 'layout:nested-posting-meta': 100,
               'history_steps': 6000, 'restore_checks': 800, 'idempotence_checks': 2500, 'parse_vs_later_checks': 2500},
